@@ -811,14 +811,27 @@ def c19(ctx):
     # programs whose sources take part in several wire merges (bundle merges of entity outputs, same-typed sums): colour locking
     merges = [p for p in with_ids(gen.generate("GenEntity"), "en") if p["grp"] == "c06:cont" and "tot" in p["src"]]
     merges += [p for p in with_ids(gen.generate("GenScalar"), "sc") if p["grp"] in ("twocons",)]
+    # stateful programs (decisions about the implementation of a cell are made per program)
+    selfs = [p for p in with_ids(gen.generate("GenSelf"), "sf") if p["grp"] in ("const", "input", "cond")]
+    cells = [p for p in with_ids(gen.generate("GenMem"), "me") if p["grp"] in ("cell", "latch1")]
+    merges += (pick(selfs, 6, ctx.seed) + pick(cells, 4, ctx.seed)) if quick else (selfs + pick(cells, 16, ctx.seed))
     have = {p["id"] for p in base}
     base += [p for p in merges if p["id"] not in have]
+    # sibling of a program = the next one of the same family (same names, same shape, different decisions)
+    fam = {}
+    for p in base:
+        fam.setdefault((p["id"].split("-")[0], p.get("grp", "").split(":")[0]), []).append(p)
+    sibling = {}
+    for lst in fam.values():
+        for i, p in enumerate(lst):
+            sibling[p["id"]] = lst[(i + 1) % len(lst)]["src"] if len(lst) > 1 else UNRELATED
     ctx.cov["corpus_size"] = len(base)
     ctx.cov["exhaustive"] = False
     ctx.cov["rule"] = ("programs = GenLayout families + a slice of every other family; each compiled under 8 (quick) / 12 (thorough) variations: "
                        "Python hash seeds 0,1,2,3 in fresh processes, another working directory, solver seed / deterministic-time budget / "
                        "natural multi-worker wall-clock mode (hook H2), no-optimise excluded (same options only), a second in-process compile "
-                       "after an unrelated program, forced relaxation (first 3 strategies fail) and a forced routing retry; TLC compares the "
+                       "after an unrelated program, a process of its own, a process of its own after a SIBLING program (next program of the same "
+                       "family: same names and shape), forced relaxation (first 3 strategies fail) and a forced routing retry; TLC compares the "
                        "canonical form (Canon.tla: configured entities + partition of connectors into networks, relays contracted) of every "
                        "build with the reference build; non-trivial = programs whose builds differ in position / numbering / relay count")
     ctx.assumptions = ["Canon is sound (isomorphic circuits agree) and complete up to 1-WL", "background load is not varied (single sandbox)"] + ASSUME_BASE[2:3]
@@ -834,6 +847,8 @@ def c19(ctx):
         ("tiny-budget", "0", {"layout": dict(det, dtime=0.02)}),
         ("natural-4-workers", "0", {"layout": {"workers": 4, "wall": 2}}),
         ("after-unrelated", "0", {"pre_src": UNRELATED}),
+        ("fresh-process", "0", {"fresh": True}),
+        ("after-sibling", "0", {"fresh": True, "pre_sibling": True}),
     ]
     if not quick:
         variations += [("hashseed3", "3", {}), ("hashseed6", "6", {}), ("hashseed7", "7", {}), ("relaxed-ladder", "0", {"layout": dict(det, solve=["none", "none", "none"])}),
@@ -847,6 +862,8 @@ def c19(ctx):
                     continue
                 job = {"id": p["id"] + "#" + name, "src": p["src"]}
                 job.update(ov)
+                if job.pop("pre_sibling", False):
+                    job["pre_src"] = sibling[p["id"]]
                 jobs.append(job)
         results.update(compile_all(jobs, hashseed=hs))
     recs, bps = [], []
